@@ -19,6 +19,9 @@ def run(model, rep, tier):
     r6_longest_prefix_first(ctx, rep)
     r7_prefix_is_directory_boundary(ctx, rep)
     r8_which_files_are_test_files(ctx, rep)
+    # the positional MODULE [TEST] filters reach the pattern lists and restrict them (shared with C03.R10)
+    from . import c03 as _c03
+    _c03.r10_positional_filters(ctx, rep, R='C14.R3')
     rep.units['cfg'] = ctx.cfg_stats
 
 
@@ -358,6 +361,7 @@ def r4_pruning(ctx, rep, R='C14.R4'):
               'before the yield', 'ignored directories are not pruned before the walk step is yielded',
               key='prune:walk', func=fw.qualname, where=ctx.where(fw, fw.node))
     default_ignores_kept(ctx, rep, R)
+    symlinked_directories_followed(ctx, rep, R)
 
 
 # the names the runner has always ignored (option --ignore_dir; its help text: "Specifies the name
@@ -491,6 +495,37 @@ def default_ignores_kept(ctx, rep, R):
               'the built-in ignored directory names are lost (%s): version-control directories are then '
               'searched for tests and for stale bytecode' % '; '.join(problems), key='ignore:defaults',
               func=fo.qualname, where=ctx.where(fo, d))
+
+
+def symlinked_directories_followed(ctx, rep, R):
+    """os.walk does not descend into symlinked directories; walk_with_symlinks does it itself: every
+    (not ignored) sub-directory that is a link is walked recursively -- the only condition on the
+    recursive call is the islink test (a de-duplication by link text, a depth limit ... silently
+    leaves directories unsearched: test files not found, orphaned bytecode not removed)"""
+    from .common import guard_literals
+    fw = ctx.model.func('find.walk_with_symlinks')
+    rec = [c for c in own_calls(fw.node) if call_name(c) == fw.name]
+    ok = bool(rec)
+    extra = []
+    for c in rec:
+        for e, pos in guard_literals(ctx, fw, c):
+            t = norm(e)
+            if 'islink' in t and pos:
+                continue
+            extra.append((t, pos))
+    # the loop over the sub-directories has no other exit than exhaustion
+    g = ctx.cfg(fw)
+    for h in [n for n in g.nodes if n.kind == 'for' and any(c in list(ast.walk(n.stmt)) for c in rec)
+              and not (isinstance(n.stmt.target, ast.Tuple))]:
+        inside = set(g.loop_nodes(h.id)) | {h.id}
+        for s_ in inside:
+            for d_, k_ in g.succ[s_]:
+                if d_ not in inside and k_ != 'exc' and not (s_ == h.id and k_ == 'false'):
+                    extra.append(('the loop over the sub-directories is left by %s' % norm(g.node(s_).ast)[:40], True))
+    rep.check(ok and not extra, R, 'walk_with_symlinks: every symlinked sub-directory is walked (only the islink test guards the recursion)',
+              'a symlinked directory is followed only under %s: directories reached through other links '
+              'are silently not searched' % extra, key='walk:symlinks', func=fw.qualname,
+              where=ctx.where(fw, rec[0] if rec else fw.node))
 
 
 def r5_package_restricts(ctx, rep, R='C14.R5'):
